@@ -48,6 +48,20 @@ func NewPauseController() *PauseController {
 	return &PauseController{}
 }
 
+func (p *PauseController) MarshalJSON() ([]byte, error) {
+	// Marshal a copy taken under the lock, as the state is changed by pause,
+	// stop and resume commands while snapshots are being saved.
+	p.lock.RLock()
+	snapshot := struct {
+		State       PauseState    `json:"state"`
+		StopMessage string        `json:"stop_message"`
+		FailAfter   time.Duration `json:"fail_after"`
+	}{p.State, p.StopMessage, p.FailAfter}
+	p.lock.RUnlock()
+
+	return json.Marshal(snapshot)
+}
+
 func (p *PauseController) UnmarshalJSON(data []byte) error {
 	type alias *PauseController // Avoid infinite recursion when we call Unmarshal
 	err := json.Unmarshal(data, alias(p))
